@@ -54,7 +54,9 @@ func (bg *BondgoCheck) Create_Connecting_Processor(rsize int, procid int) (*proc
 	if prog, err := myarch.Assembler([]byte(prog)); err == nil {
 		mymachine.Program = prog
 	} else {
+		// the program cannot be assembled on the processor that was sized for it: no machine
 		fmt.Println(err)
+		return mymachine, false
 	}
 
 	return mymachine, true
